@@ -43,6 +43,9 @@ def readsE : JsExpr → List Bytes
   | .paren x => readsE x
   | .call1 _ a => readsE a
   | .call2 _ a b => readsE a ++ readsE b
+  | .loopFirst idx => [idx]
+  | .loopLastEach idx lim => [idx, lim]
+  | .loopLastRange v step lim => [v, step, lim]
 
 def allIn (D : List Bytes) (xs : List Bytes) : Bool := xs.all fun x => D.contains x
 
@@ -86,7 +89,12 @@ end
 /-! ## expressions read scope variables only -/
 
 /-- every local the generator scope can hand out is declared -/
-def Covers (D : List Bytes) (sc : Scope) : Prop := ∀ k g, sc.lookup k = some g → D.contains g = true
+def Covers (D : List Bytes) (sc : Scope) : Prop := ∀ f ∈ sc.stack, ∀ kv ∈ f, D.contains kv.2 = true
+
+theorem Covers.lookup {D : List Bytes} {sc : Scope} (h : Covers D sc) {k g : Bytes} (hl : sc.lookup k = some g) :
+    D.contains g = true := by
+  obtain ⟨f, hf, hm⟩ := lookupIn_mem sc.stack k g hl
+  exact h f hf _ hm
 
 theorem allIn_append {D a b : List Bytes} (ha : allIn D a = true) (hb : allIn D b = true) : allIn D (a ++ b) = true := by
   simp only [allIn, List.all_append, Bool.and_eq_true] at *
@@ -134,6 +142,56 @@ theorem accAst_reads (D : List Bytes) : ∀ (acc : AccessList) (x j : JsExpr), a
           simp only [Option.some.injEq] at h; subst h
           exact allIn_append hx hx
   | .cons (.expr _ _ _) _, _, _, h, _ => by simp [accAst] at h
+
+theorem loop_reads (D : List Bytes) (sc : Scope) (hc : Covers D sc) (name : Bytes) (args : ExprList) (j : JsExpr)
+    (h : C04c.loopAst sc name args = some j) : allIn D (readsE j) = true := by
+  cases args with
+  | nil => simp [C04c.loopAst] at h
+  | cons a r =>
+    cases r with
+    | cons _ _ => cases a <;> simp [C04c.loopAst] at h
+    | nil =>
+      cases a with
+      | dataRef dp key acc =>
+        cases acc with
+        | cons _ _ => simp [C04c.loopAst] at h
+        | nil =>
+          simp only [C04c.loopAst] at h
+          split at h
+          · simp only [Option.map_eq_some_iff] at h
+            obtain ⟨idx, hidx, rfl⟩ := h
+            have h1 : idx ∈ D := by simpa using hc.lookup hidx
+            simp [readsE, allIn, h1]
+          · split at h
+            · simp only [Option.map_eq_some_iff] at h
+              obtain ⟨idx, hidx, rfl⟩ := h
+              have h1 : idx ∈ D := by simpa using hc.lookup hidx
+              simp [readsE, allIn, h1]
+            · cases hf : Scope.loopFrame sc.stack key with
+              | none => simp [hf] at h
+              | some f =>
+                have hmem := SoyVerif.Lemmas.JsGenSafe.loopFrame_mem sc.stack key f hf
+                have hin : ∀ k x, frameGet? f k = some x → D.contains x = true :=
+                  fun k x hk => hc f hmem _ (frameGet_mem f k x hk)
+                simp only [hf, Option.bind_some, C04c.lastAst] at h
+                split at h
+                · rename_i step hs
+                  split at h
+                  · rename_i lv lim hv hl
+                    simp only [Option.some.injEq] at h; subst h
+                    have h1 : step ∈ D := by simpa using hin _ _ hs
+                    have h2 : lv ∈ D := by simpa using hin _ _ hv
+                    have h3 : lim ∈ D := by simpa using hin _ _ hl
+                    simp [readsE, allIn, h1, h2, h3]
+                  · cases h
+                · split at h
+                  · rename_i idx lim hv hl
+                    simp only [Option.some.injEq] at h; subst h
+                    have h2 : idx ∈ D := by simpa using hin _ _ hv
+                    have h3 : lim ∈ D := by simpa using hin _ _ hl
+                    simp [readsE, allIn, h2, h3]
+                  · cases h
+      | _ => simp [C04c.loopAst] at h
 
 theorem toAst_reads (D : List Bytes) (sc : Scope) (hc : Covers D sc) :
     ∀ (e : Expr) (j : JsExpr), toAst sc e = some j → allIn D (readsE j) = true
@@ -185,7 +243,7 @@ theorem toAst_reads (D : List Bytes) (sc : Scope) (hc : Covers D sc) :
         cases hl : sc.lookup key with
         | none => rfl
         | some g =>
-          have := hc key g hl
+          have := hc.lookup hl
           simp only [readsE, allIn, List.all_cons, List.all_nil, Bool.and_true]
           exact this
       have := accAst_reads D acc _ j0 hacc hbase
@@ -194,6 +252,8 @@ theorem toAst_reads (D : List Bytes) (sc : Scope) (hc : Covers D sc) :
       · exact this
   | .func _ name args, j, h => by
     unfold toAst at h
+    split at h
+    · exact loop_reads D sc hc name args j h
     cases args with
     | nil => simp at h
     | cons a r =>
@@ -245,11 +305,11 @@ theorem Sub.cons (x : Bytes) (D : List Bytes) : Sub D (x :: D) := by
 theorem contains_head (x : Bytes) (D : List Bytes) : (x :: D).contains x = true := by simp
 
 theorem Covers.mono {D D' : List Bytes} {sc : Scope} (h : Covers D sc) (hs : Sub D D') : Covers D' sc :=
-  fun k g hl => hs g (h k g hl)
+  fun f hf kv hkv => hs _ (h f hf kv hkv)
 
 theorem Covers.stack {D : List Bytes} {sc sc' : Scope} (h : Covers D sc) (hs : sc'.stack = sc.stack) : Covers D sc' := by
-  intro k g hl
-  exact h k g (by simpa [Scope.lookup, hs] using hl)
+  intro f hf kv hkv
+  exact h f (by rw [← hs]; exact hf) kv hkv
 
 /-- what holds after the statements of a command / a command list -/
 def After (D : List Bytes) (r : JsStmts × Scope) : Prop :=
@@ -268,75 +328,59 @@ theorem scopedStmts_one (D : List Bytes) (s : JsStmt) : scopedStmts D (.one s) =
   simp only [JsStmts.one, scopedStmts]
   cases scopedStmt D s <;> rfl
 
-theorem covers_makevar {D : List Bytes} {sc : Scope} (hs : ScOk sc) (h : Covers D sc) (x : Bytes) :
-    Covers ((sc.makevar x).1 :: D) (sc.makevar x).2 := by
-  intro k g hl
+theorem covers_setTop {D : List Bytes} {sc : Scope} {g : Bytes} (h : Covers D sc) (hg : D.contains g = true) (x : Bytes)
+    (n' : Nat) : Covers D ⟨Scope.setTop sc.stack x g, n'⟩ := by
+  intro f hf kv hkv
   cases hst : sc.stack with
-  | nil => exact absurd hst hs.1
-  | cons f st =>
-    rw [C04c.makevar_lookup sc f st hst] at hl
-    split at hl
-    · simp only [Option.some.injEq] at hl
-      subst hl
-      exact contains_head _ _
-    · exact Sub.cons _ _ g (h k g hl)
+  | nil => simp [hst, Scope.setTop] at hf
+  | cons f0 st =>
+    simp only [hst, Scope.setTop, List.mem_cons] at hf
+    rcases hf with rfl | hf
+    · rcases frameSet_mem f0 x g kv hkv with rfl | hm
+      · exact hg
+      · exact h f0 (by simp [hst]) kv hm
+    · exact h f (by simp [hst, hf]) kv hkv
+
+theorem covers_makevar {D : List Bytes} {sc : Scope} (hs : ScOk sc) (h : Covers D sc) (x : Bytes) :
+    Covers ((sc.makevar x).1 :: D) (sc.makevar x).2 :=
+  covers_setTop (h.mono (Sub.cons _ D)) (contains_head _ _) x _
 
 theorem covers_bind {D : List Bytes} {sc : Scope} {g : Bytes} (h : Covers D sc) (hg : D.contains g = true) (x : Bytes) :
-    Covers D (sc.bind x g) := by
-  intro k g' hl
-  cases hst : sc.stack with
-  | nil => simp [Scope.bind, Scope.lookup, hst, Scope.setTop, Scope.lookupIn] at hl
-  | cons f st =>
-    have hlook : (sc.bind x g).lookup k = if x == k then some g else sc.lookup k := by
-      simp only [Scope.bind, Scope.lookup, hst, Scope.setTop, Scope.lookupIn, C04c.frameGet_frameSet]
-      by_cases hnk : (x == k) = true
-      · simp [hnk]
-      · simp [hnk]
-    rw [hlook] at hl
-    split at hl
-    · simp only [Option.some.injEq] at hl
-      subst hl
-      exact hg
-    · exact h k g' hl
+    Covers D (sc.bind x g) :=
+  covers_setTop h hg x _
 
 theorem covers_pushForEach {D : List Bytes} {sc : Scope} (h : Covers D sc) (v : Bytes) :
     Covers ((sc.pushForEach v).1.1 :: (sc.pushForEach v).1.2.2.2 :: (sc.pushForEach v).1.2.2.1 :: D) (sc.pushForEach v).2 := by
-  intro k g hl
-  simp only [Scope.pushForEach, Scope.lookup, Scope.lookupIn, C04c.frameGet_frameSet, frameGet?] at hl
-  by_cases h1 : (Scope.kIndex ++ v == k) = true
-  · simp only [h1, if_true, Option.some.injEq] at hl; subst hl
-    simp [Scope.pushForEach]
-  · by_cases h2 : (Scope.kLimit ++ v == k) = true
-    · simp only [h1, h2, Bool.false_eq_true, if_false, if_true, Option.some.injEq] at hl; subst hl
-      simp [Scope.pushForEach]
-    · by_cases h3 : (v == k) = true
-      · simp only [h1, h2, h3, Bool.false_eq_true, if_false, if_true, Option.some.injEq] at hl; subst hl
-        simp [Scope.pushForEach]
-      · simp only [h1, h2, h3, Bool.false_eq_true, if_false] at hl
-        exact Sub.cons _ _ g (Sub.cons _ _ g (Sub.cons _ _ g (h k g hl)))
+  intro f hf kv hkv
+  simp only [Scope.pushForEach, List.mem_cons] at hf
+  rcases hf with rfl | hf
+  · rcases frameSet_mem _ _ _ kv hkv with rfl | hkv
+    · simp [Scope.pushForEach]
+    · rcases frameSet_mem _ _ _ kv hkv with rfl | hkv
+      · simp [Scope.pushForEach]
+      · rcases frameSet_mem _ _ _ kv hkv with rfl | hkv
+        · simp [Scope.pushForEach]
+        · cases hkv
+  · exact Sub.cons _ _ _ (Sub.cons _ _ _ (Sub.cons _ _ _ (h f hf kv hkv)))
 
 theorem covers_pushForRange {D : List Bytes} {sc : Scope} (h : Covers D sc) (v : Bytes) :
     Covers ((sc.pushForRange v).1.2.2.2 :: (sc.pushForRange v).1.1 :: (sc.pushForRange v).1.2.2.1 ::
       (sc.pushForRange v).1.2.1 :: D) (sc.pushForRange v).2 := by
-  intro k g hl
-  simp only [Scope.pushForRange, Scope.lookup, Scope.lookupIn, C04c.frameGet_frameSet, frameGet?] at hl
-  by_cases h0 : (Scope.kVar ++ v == k) = true
-  · simp only [h0, if_true, Option.some.injEq] at hl; subst hl
-    simp [Scope.pushForRange]
-  by_cases h1 : (Scope.kIndex ++ v == k) = true
-  · simp only [h0, h1, Bool.false_eq_true, if_false, if_true, Option.some.injEq] at hl; subst hl
-    simp [Scope.pushForRange]
-  by_cases h4 : (Scope.kStep ++ v == k) = true
-  · simp only [h0, h1, h4, Bool.false_eq_true, if_false, if_true, Option.some.injEq] at hl; subst hl
-    simp [Scope.pushForRange]
-  by_cases h2 : (Scope.kLimit ++ v == k) = true
-  · simp only [h0, h1, h4, h2, Bool.false_eq_true, if_false, if_true, Option.some.injEq] at hl; subst hl
-    simp [Scope.pushForRange]
-  by_cases h3 : (v == k) = true
-  · simp only [h0, h1, h4, h2, h3, Bool.false_eq_true, if_false, if_true, Option.some.injEq] at hl; subst hl
-    simp [Scope.pushForRange]
-  · simp only [h0, h1, h4, h2, h3, Bool.false_eq_true, if_false] at hl
-    exact Sub.cons _ _ g (Sub.cons _ _ g (Sub.cons _ _ g (Sub.cons _ _ g (h k g hl))))
+  intro f hf kv hkv
+  simp only [Scope.pushForRange, List.mem_cons] at hf
+  rcases hf with rfl | hf
+  · rcases frameSet_mem _ _ _ kv hkv with rfl | hkv
+    · simp [Scope.pushForRange]
+    · rcases frameSet_mem _ _ _ kv hkv with rfl | hkv
+      · simp [Scope.pushForRange]
+      · rcases frameSet_mem _ _ _ kv hkv with rfl | hkv
+        · simp [Scope.pushForRange]
+        · rcases frameSet_mem _ _ _ kv hkv with rfl | hkv
+          · simp [Scope.pushForRange]
+          · rcases frameSet_mem _ _ _ kv hkv with rfl | hkv
+            · simp [Scope.pushForRange]
+            · cases hkv
+  · exact Sub.cons _ _ _ (Sub.cons _ _ _ (Sub.cons _ _ _ (Sub.cons _ _ _ (h f hf kv hkv))))
 
 section
 variable (ae : Autoescape)
@@ -468,7 +512,12 @@ mutual
       split at h
       · rename_i rc hrc
         simp only [Option.some.injEq] at h; subst h
-        have hc' : Covers D sc.push := fun k g hl => hc k g (by rw [← lookup_push]; exact hl)
+        have hc' : Covers D sc.push := by
+          intro f hf kv hkv
+          simp only [Scope.push, List.mem_cons] at hf
+          rcases hf with rfl | hf
+          · cases hkv
+          · exact hc f hf kv hkv
         obtain ⟨D', h1, _, h3⟩ := scoped_cmds cmds buf sc.push rc D hrc (scOk_push hs.2) hc' hb
         exact ⟨D', h1, h3⟩
       · cases h
@@ -549,8 +598,10 @@ theorem no_undeclared_js_variable_partial (ae : Autoescape) (body : CmdList) (n 
     subst hf
     cases hkv
   have hc : Covers [b!"output"] ⟨[[]], n⟩ := by
-    intro k g hl
-    simp [Scope.lookup, Scope.lookupIn, frameGet?] at hl
+    intro f hf kv hkv
+    simp only [List.mem_singleton] at hf
+    subst hf
+    cases hkv
   obtain ⟨D', h1, _, _⟩ := scoped_cmds ae body b!"output" _ r _ h hs hc (by simp)
   simp [h1]
 
